@@ -135,7 +135,7 @@ def policyVal (pol : Option (List (String × Policy))) (theirs : Props) (k : Str
     | some .other => .none
 
 /-- everything a successful `merge_nodes` does, in one statement -/
-theorem mergeNodes_ok (s : Store) (h : Inv s) (g nid g2 : String) (hg : g ≠ g2) (pol : Option (List (String × Policy)))
+theorem mergeNodes_ok (s : Store) (g nid g2 : String) (pol : Option (List (String × Policy)))
     (hok : (mergeNodes g nid g2 pol s).1 = .ok .unit) :
     ∃ u v mine theirs np, findNode s g nid = .ok u ∧ findNode s g2 nid = .ok v ∧ u ≠ v ∧
       nodeAttrs s u = some mine ∧ nodeAttrs s v = some theirs ∧
@@ -155,19 +155,15 @@ theorem mergeNodes_ok (s : Store) (h : Inv s) (g nid g2 : String) (hg : g ≠ g2
       split at hok
       · cases hok
       · rename_i v hv
-        obtain ⟨nu, hnu, eu, gu, _⟩ := findNode_ok s g nid u hu
-        obtain ⟨nv, hnv, ev, gv, _⟩ := findNode_ok s g2 nid v hv
-        have huv : u ≠ v := by
-          intro e
-          have : nu = nv := eq_of_nodup_map (·.iid) s.nodes h.1 nu hnu nv hnv (by simp [eu, ev, e])
-          subst this
-          exact hg (inG_unique nu g g2 gu gv)
+        split at hok
+        · cases hok
+        rename_i huv
         split at hok
         · rename_i mine theirs hmine htheirs
           cases pol with
           | none =>
             refine ⟨u, v, mine, theirs, mine, rfl, hv, huv, hmine, htheirs, ?_, rfl, ?_⟩
-            · simp [hne]
+            · simp [hne, huv]
             · intro k v0 hk; simpa [policyVal] using hk
           | some pol =>
             simp only at hok
@@ -175,7 +171,7 @@ theorem mergeNodes_ok (s : Store) (h : Inv s) (g nid g2 : String) (hg : g ≠ g2
             · cases hok
             · rename_i np hnp
               refine ⟨u, v, mine, theirs, np, rfl, hv, huv, hmine, htheirs, ?_, (mergeProps_spec theirs pol mine np hnp).1, ?_⟩
-              · simp [hnp, hne]
+              · simp [hnp, hne, huv]
               · intro k v0 hk
                 simpa [policyVal] using mergeProps_policy theirs pol mine np hnp k v0 hk
         · cases hok
